@@ -502,8 +502,7 @@ class Interp:
             if not sb.set_readonly(step["on"]):
                 f["skipped_readonly"] += 1
         elif op == "edit":
-            if sb.readonly:
-                return
+            # (an immutable directory still allows rewriting the files in it)
             arch = step["arch"]
             had = bool(sb.companion(arch) or sb.homefiles(arch))
             if sb.variant[arch] != step["variant"]:
@@ -680,6 +679,34 @@ def fault_enumeration(archs, stats, failures):
                 failures[v.bucket] = failure_record(ID, {"history": list(it.history)}, v)
         finally:
             it.close()
+    # a cache entry for the previous content of the file sits in the home cache when the edited file is analysed
+    for arch in archs:
+        for via in ("moved", "readonly"):
+            it = Interp()
+            k0 = kernels_for(arch)[0]
+            if via == "moved":
+                hist = [{"op": "run", "arch": arch, "kernel": k0, "fixed": False}, {"op": "move_to_home", "arch": arch},
+                        {"op": "edit", "arch": arch, "variant": "B"}, {"op": "run", "arch": arch, "kernel": k0, "fixed": False},
+                        {"op": "edit", "arch": arch, "variant": "A"}, {"op": "run", "arch": arch, "kernel": k0, "fixed": True}]
+            else:
+                hist = [{"op": "readonly", "on": True}, {"op": "run", "arch": arch, "kernel": k0, "fixed": False},
+                        {"op": "edit", "arch": arch, "variant": "B"}, {"op": "run", "arch": arch, "kernel": k0, "fixed": False},
+                        {"op": "run", "arch": arch, "kernel": k0, "fixed": True}]
+            try:
+                for s_ in hist:
+                    it.do(s_)
+                for upto in it.facts["checked"]:
+                    stats.evaluations += 1
+                    stats.nontrivial.add(core.case_hash(it.history[:upto]))
+                stats.classes["fault:older-entry-in-home-cache:" + via] += 1
+                if via == "readonly" and it.facts["skipped_readonly"]:
+                    stats.excluded["readonly-step-skipped(chattr unavailable)"] += 1
+            except Violation as v:
+                stats.evaluations += 1
+                if v.bucket not in failures:
+                    failures[v.bucket] = failure_record(ID, {"history": list(it.history)}, v)
+            finally:
+                it.close()
     # a competing cold start creates the cache directory / cache file just before this process does
     for arch in archs:
         for home in (True, False):
